@@ -69,6 +69,9 @@ func c09workloads() []c09wl {
 		{"nested-child", "global (TICK, CALLP)\nCALLP(func() {\n  return CALLP(func() {\n    for {\n      TICK()\n    }\n  })\n})\nreturn 1", false, 50000, []string{"invoke.pre_check", "invoke.pre_child_run", "pool.acquire.registered", "child.run.enter", "child.run.ready"}, false},
 		{"sleep", "global TICK\ntime := import(\"time\")\nfor {\n  TICK()\n  time.Sleep(50 * time.Millisecond)\n}", false, 40, c09rootPoints, false},
 		{"eval-loop", "global TICK\nfor {\n  TICK()\n}", true, 50000, []string{"eval.pre_select", "eval.goroutine_start", "eval.started", "run.enter", "run.locked", "run.ready"}, false},
+		// the abort lands while a callee runs and the caller (main, or a function) is inside a try statement
+		{"callee-under-main-try", "global TICK\nspin := func() {\n  for {\n    TICK()\n  }\n}\ntry {\n  spin()\n} catch e {\n  return \"caught\"\n} finally {\n  TICK()\n}\nreturn 1", false, 50000, []string{"run.ready", "tick"}, false},
+		{"callee-under-nested-try", "global TICK\nspin := func() {\n  for {\n    TICK()\n  }\n}\nmid := func() {\n  try {\n    return spin()\n  } finally {\n    TICK()\n  }\n}\ntry {\n  return mid()\n} catch e {\n  return 0\n}", false, 50000, []string{"run.ready", "tick"}, false},
 		// endless executions without a backward jump: self calls in tail position re-use the frame (returned and discarded form),
 		// in the root VM and in a child VM; a loop made of for-in and of a conditional for
 		{"tailcall-spin", "global TICK\nvar spin\nspin = func(n) {\n  TICK()\n  return spin(n + 1)\n}\nreturn spin(0)", false, 50000, []string{"run.ready"}, false},
@@ -188,12 +191,47 @@ func c09followup(vm *ugo.VM) string {
 		}
 		c09known = bc
 	}
+	// first a later script whose error no handler of its own covers (Run must return that error; nothing left behind by
+	// the aborted run may intercept it), then an ordinary one
+	if c09known2 == nil {
+		bc, err := ugo.Compile([]byte("f := func(n) {\n  if n > 1 {\n    throw error(\"boom\")\n  }\n  return n\n}\ntry {\n  f(1)\n} finally {\n}\nreturn f(2)"), ugo.CompilerOptions{})
+		if err != nil {
+			return "compile: " + err.Error()
+		}
+		c09known2 = bc
+	}
+	var v2 ugo.Object
+	var err2 error
+	fdone := make(chan struct{})
+	go func() {
+		defer close(fdone)
+		v2, err2 = vm.SetBytecode(c09known2).Run(nil)
+	}()
+	select {
+	case <-fdone:
+	case <-time.After(10 * time.Second):
+		// a microsecond script: it is looping; stop it (several times if needed) and report
+		for i := 0; i < 200; i++ {
+			c09abort(vm)
+			select {
+			case <-fdone:
+				i = 200
+			case <-time.After(10 * time.Millisecond):
+			}
+		}
+		return "follow-up script ending in an uncaught error does not terminate on the aborted VM"
+	}
+	if err2 == nil || !strings.Contains(err2.Error(), "boom") {
+		return fmt.Sprintf("follow-up script ending in an uncaught error: want the error boom, got (%v, %v)", v2, err2)
+	}
 	v, err := vm.SetBytecode(c09known).Run(nil, ugo.Int(2))
 	if err != nil {
 		return "error: " + err.Error()
 	}
 	return canon.Value(v)
 }
+
+var c09known2 *ugo.Bytecode
 
 func c09modules() *ugo.ModuleMap {
 	mm := ugo.NewModuleMap()
@@ -212,8 +250,12 @@ func (m c09) placement(c *core.Ctx, wl c09wl, point string, nth int, action stri
 		order = "racing"
 	}
 	var counter atomic.Int64
+	var tickHook func()
 	globals := ugo.Map{"TICK": &ugo.Function{Name: "TICK", Value: func(...ugo.Object) (ugo.Object, error) {
 		counter.Add(1)
+		if tickHook != nil {
+			tickHook() // pseudo point "tick": the n-th call of TICK, i.e. somewhere in the middle of the script
+		}
 		return ugo.Undefined, nil
 	}}}
 	mkCall := func(pooled bool) *ugo.Function {
@@ -317,6 +359,9 @@ func (m c09) placement(c *core.Ctx, wl c09wl, point string, nth int, action stri
 	}
 	ugo.SetVerifHook(ctl.hook)
 	defer ugo.SetVerifHook(nil)
+	if point == "tick" {
+		tickHook = func() { ctl.hook("tick", nil) }
+	}
 
 	var runErr error
 	var runVal ugo.Object
